@@ -255,8 +255,6 @@ func ruleIndexKindGuards(c *Ctx) {
 
 func ruleOptDeref(c *Ctx) {
 	p := c.P
-	isDirect := p.Method("codec.Meta.IsDirectResponseStatus")
-	isValid := p.Method("codec.Meta.IsValidStatus")
 	for _, q := range []string{"codec.Meta.Status", "rpc.UnsubscribeRequest.Count", "codec.ValueObject.RID", "codec.ValueObject.Action", "rpc.Request.ID"} {
 		f := p.Field(q)
 		if f == nil {
@@ -274,34 +272,44 @@ func ruleOptDeref(c *Ctx) {
 					return
 				}
 				c.inst(1)
-				nonNil := func(i *ssa.If) (bool, bool) {
-					for _, d := range []bool{true, false} {
-						if x, nn, ok := nilTest(i, d); ok && nn {
-							if g, _ := fieldLoad(x); g == f {
-								return d, true
+				var nonNilD func(depth int) guardPred
+				nonNilD = func(depth int) guardPred {
+					return func(i *ssa.If) (bool, bool) {
+						for _, d := range []bool{true, false} {
+							if x, nn, ok := nilTest(i, d); ok && nn {
+								if g, _ := fieldLoad(x); g == f {
+									return d, true
+								}
 							}
 						}
-					}
-					// predicate summaries on the meta
-					cond := i.Cond
-					neg := false
-					if un, ok := cond.(*ssa.UnOp); ok && un.Op == token.NOT {
-						cond, neg = un.X, true
-					}
-					if call, ok := cond.(*ssa.Call); ok {
-						switch calleeFunc(&call.Call) {
-						case isDirect:
-							if isDirect != nil {
-								return !neg, true // true => m != nil && Status != nil
-							}
-						case isValid:
-							if isValid != nil {
-								return neg, true // false => Status != nil
+						// predicate summaries, inferred: a bool function all of whose non-constant results are
+						// computed under the non-nil test implies it when it returns true (IsDirectResponseStatus,
+						// hasStatus); one whose only other result is the constant true implies it when it returns
+						// false (IsValidStatus)
+						cond := i.Cond
+						neg := false
+						if un, ok := cond.(*ssa.UnOp); ok && un.Op == token.NOT {
+							cond, neg = un.X, true
+						}
+						ridx := 0
+						if ex, isE := cond.(*ssa.Extract); isE {
+							// `s, ok := m.status()`: the bool of a tuple-returning helper
+							cond, ridx = ex.Tuple, ex.Index
+						}
+						if call, ok := cond.(*ssa.Call); ok && depth < 3 {
+							if sf := call.Call.StaticCallee(); sf != nil && p.isRepoFn(sf) && len(sf.Blocks) > 0 {
+								if impliesGuard(p, sf, ridx, nonNilD(depth+1), false) {
+									return !neg, true
+								}
+								if impliesGuard(p, sf, ridx, nonNilD(depth+1), true) {
+									return neg, true
+								}
 							}
 						}
+						return false, false
 					}
-					return false, false
 				}
+				nonNil := nonNilD(0)
 				g := p.guardedBy(in, nonNil)
 				c.check(g != nil, fnName(fn), "optional decoded pointer "+q+" dereferenced only under its nil test", p.InstrPos(in), "dominated by a non-nil test (or a predicate implying it)", "nil pointer dereference on a message that omits the field")
 			})
@@ -536,4 +544,60 @@ func ruleEncoder(c *Ctx) {
 	}
 	c.check(target["HEAD"] != nil && target["HEAD"] == target["GET"] && nHead == 1, fnName(api), "HEAD is handled exactly as GET", p.Pos(api.Pos()),
 		"the HEAD and GET cases lead to the same block and HEAD is tested nowhere else", "HEAD requests take a different path than GET (status or headers may differ)")
+}
+
+// impliesGuard: every result of the bool function fn other than the constant
+// `trivial` is produced under the guard (so fn() != trivial implies the guard).
+func impliesGuard(p *Prog, fn *ssa.Function, ridx int, guard guardPred, trivial bool) bool {
+	if ridx >= fn.Signature.Results().Len() {
+		return false
+	}
+	if b, ok := fn.Signature.Results().At(ridx).Type().Underlying().(*types.Basic); !ok || b.Kind() != types.Bool {
+		return false
+	}
+	n := 0
+	okAll := true
+	var check func(v ssa.Value, at ssa.Instruction, depth int)
+	check = func(v ssa.Value, at ssa.Instruction, depth int) {
+		if depth > 4 {
+			okAll = false
+			return
+		}
+		if c, isC := constBool(v); isC {
+			if c != trivial {
+				// a non-trivial constant must itself be under the guard
+				if p.guardedBy(at, guard) == nil {
+					okAll = false
+				}
+				n++
+			}
+			return
+		}
+		if ph, isP := v.(*ssa.Phi); isP {
+			for i, e := range ph.Edges {
+				pred := ph.Block().Preds[i]
+				check(e, pred.Instrs[len(pred.Instrs)-1], depth+1)
+			}
+			return
+		}
+		n++
+		in, isI := v.(ssa.Instruction)
+		if !isI {
+			okAll = false
+			return
+		}
+		// the value is the guard's own test: its being != trivial is the guard
+		if dir, isG := guard(&ssa.If{Cond: v}); isG && dir == !trivial {
+			return
+		}
+		if p.guardedBy(in, guard) == nil && p.guardedBy(at, guard) == nil {
+			okAll = false
+		}
+	}
+	for _, in := range instrsOf(fn) {
+		if r, ok := in.(*ssa.Return); ok {
+			check(r.Results[ridx], r, 0)
+		}
+	}
+	return okAll && n > 0
 }
